@@ -280,4 +280,38 @@ theorem gen_fsLocate (fs : FS) (uuid : Bytes) (location : String) :
     | none => simp [h]
     | some f => simp [h, bind, Outcome.bind]
 
+/-! ### `Container::_get_pack` -/
+
+/-- the three answers of `get_pack` out of the source's `Option<MayMissPack<_>>` -/
+def lookupOfSrc : Option (Sum PackInfo Bytes) → PackLookup
+  | none => .unknown
+  | some (.inl info) => .missing info
+  | some (.inr b) => .found b
+
+/-- **Getting a pack follows the source**: past the bound on pack ids (`get_pack`), `containerGetPack` of the
+    container model is `Container::_get_pack` as translated from `reader/jubako.rs` on every run, applied to
+    the model's manifest lookup and locator chain — an id the manifest does not list is "unknown", a pack the
+    locators do not find is "missing" with its pack info, a found one is handed over; an error of the locator is
+    passed on. -/
+theorem gen_containerGetPack (fs : FS) (c : ContainerView) (packId : Nat) :
+    containerGetPack fs c packId =
+      (if packId ≥ (((c.infos.filter (fun i => i.kind ≠ .directory)).map (·.packId)).foldl max 0) + 1 then .ok .unknown
+       else
+        (Generated.containerGetPackInner
+          (fun id => (c.infos.filter (fun i => i.kind ≠ .directory)).find? (fun i => i.packId == id))
+          (fun info => (locate fs c.entryFile c.entryPacks info.uuid (locationString info.location)).map'
+            (fun o => o.map (bytesOfLocated fs)))
+          (fun b => Outcome.ok b) packId).map' lookupOfSrc) := by
+  unfold containerGetPack Generated.containerGetPackInner
+  simp only []
+  split
+  · rfl
+  · cases hfind : List.find? (fun i => i.packId == packId) (List.filter (fun i => decide (i.kind ≠ PackKind.directory)) c.infos) with
+    | none => rfl
+    | some info =>
+      simp only [bind]
+      cases hl : locate fs c.entryFile c.entryPacks info.uuid (locationString info.location) with
+      | ok o => cases o <;> rfl
+      | _ => rfl
+
 end Jubako
